@@ -1236,6 +1236,53 @@ func ruleWalkParent(p *Prog, r *Report) {
 	if nRet == 0 {
 		r.Bad(rule, n, "parent returned at the last segment by position", p.Pos(fn.Pos()), "the walker never returns a parent map")
 	}
+	// iterative form: the node walked is a loop-carried variable; every iteration that goes on must have moved it to the child
+	// it looked up — an iteration that keeps the node (the child was not a map) would match the remaining segments against the
+	// wrong map
+	eachInstr(fn, func(b *ssa.BasicBlock, in ssa.Instruction) {
+		ph, ok := in.(*ssa.Phi)
+		if !ok || typeStr(ph.Type()) != "map[string]interface{}" {
+			return
+		}
+		isHeader := false
+		for _, pr := range b.Preds {
+			if b.Dominates(pr) {
+				isHeader = true
+			}
+		}
+		if !isHeader {
+			return
+		}
+		var canKeep func(v ssa.Value, seen map[ssa.Value]bool) bool
+		canKeep = func(v ssa.Value, seen map[ssa.Value]bool) bool {
+			if v == ssa.Value(ph) {
+				return true
+			}
+			if seen[v] {
+				return false
+			}
+			seen[v] = true
+			if q, isPhi := v.(*ssa.Phi); isPhi {
+				for _, e := range q.Edges {
+					if canKeep(e, seen) {
+						return true
+					}
+				}
+			}
+			return false
+		}
+		kept := false
+		for i, pr := range b.Preds {
+			if b.Dominates(pr) && canKeep(ph.Edges[i], map[ssa.Value]bool{}) {
+				kept = true
+			}
+		}
+		if kept {
+			r.Bad(rule, n, "every continuing iteration descends", p.Pos(ph.Pos()), "the loop can go on to the next path segment with the node unchanged (the child looked up was not a map): the remaining segments are matched against the wrong map")
+		} else {
+			r.OK(rule, n, "every continuing iteration descends", p.Pos(ph.Pos()), "each back edge carries the child of the node walked")
+		}
+	})
 }
 
 // ruleWalkCollect: values are collected only from direct children of the node under inspection: the functions that append
